@@ -14,9 +14,22 @@ transfer algebra.  What this harness does on every run:
 * Oracle: listed nodes = nodes used by the faces, numbered 1..K; total volume (exact rational fan volume of the output
   faces at the output coordinates) = original total when no vertices were merged; 'mean' keeps constants and 'sum'
   keeps the grand total, both directions, nodal and elemental.
+* Streams: 'generated' (bricks with arbitrary node ids / storage orders x parameter sweep, single transfers), 'history'
+  (ONE MeshCompressor object used for a sequence of transfers with varying knn - A, B, A / repetitions / free sequences -
+  laws and model correspondence after every call; the conversion matrices are lru_cached per (object, knn)),
+  'order-sweep' (one geometry and id set under every storage order class of the node table, dist_thresh = 0), 'merge'.
+* A volume change without vertex merge is classified exactly: `classify_volume_change` says whether the output kept
+  the input coordinates of the nodes it kept and whether the threshold can have merged two adjacent non-coplanar
+  boundary faces of an output group (the known finding); anything else gets the suffix-free signature.
+* Every compress() is first tried in a forked child under a memory and a time cap (`dry_run`): a kernel that no longer
+  ends is reported as `compress:runaway` with its input instead of taking the whole check down.
 """
 import contextlib
 import io
+import os
+import select
+import signal
+import time
 from fractions import Fraction as F
 
 import numpy as np
@@ -41,13 +54,18 @@ RULE = ('meshes: tet (6 Kuhn tets per cell) and hex bricks of 1..3 cells per axi
         'positive determinant, node ids dense/sparse/large in ascending/descending/shuffled storage order; parameters: '
         'elem_num in {1,2,3,5,8,n,2n} x cos_thresh in {1-1e-9, 0.999, 0.99, 0.9, 0.5, 0, -1} x dist_thresh in {0, 0.1, 0.5, 2} '
         'x edge scale; knn in {1,2,3,5}; a case is non-trivial when the output has fewer cells than the input; '
-        'distinct = distinct (mesh, parameters)')
+        'distinct = distinct (mesh, parameters); histories: knn sequences of length 3..6 over {1,2,3,5} on one compressor '
+        '(A,B,A / A,A,B,A,B / A,B,C,A,C,B / free), all 8 transfers (nodal|elemental x compress|decompress x mean|sum) after '
+        'every element of the sequence, non-trivial when the sequence returns to an earlier knn and the matrices differ; '
+        'order-sweep: asc/desc/shuf/midshuf/swap2 storage of one mesh, dist_thresh=0, cos_thresh in {1-1e-9, 0.999}')
 ASSUMPTIONS = [
     'node indices are < 2^32 (the code packs a directed edge into one int64)',
     'face hashes (random base modulo 2^61-1) do not collide',
     'the volume of a cell with non-planar faces is taken by the fan triangulation from each face\'s first node, which is '
     'what femio\'s polyhedron volume kernel computes',
     'float results of the transfer functions are compared with the exact rational model values at relative tolerance 1e-9',
+    'a compress() of a generated brick (<= 162 cells) that needs more than 2 GiB of additional address space or more than '
+    '150 s in the dry run is reported as compress:runaway (on the tree as delivered: < 1 s, a few MiB)',
 ]
 TRUSTED = ['C20: np.matrix / scipy.sparse products of the transfer functions are observed through their results only']
 
@@ -97,27 +115,54 @@ def fan_vol6(faces, pos):
     return v
 
 
-def admits_angle_merge(cells, pos, cos_thresh):
-    """is there a pair of non-parallel (outward) face normals in the input whose cosine reaches the threshold?"""
-    dirs = set()
-    for c in cells:
-        for f in parse_flat(c):
-            P = [pos[v] for v in f]
-            n = [F(0)] * 3
-            for i in range(2, len(P)):
-                u, w = MG.sub(P[i - 1], P[0]), MG.sub(P[i], P[0])
-                n = [n[0] + u[1] * w[2] - u[2] * w[1], n[1] + u[2] * w[0] - u[0] * w[2], n[2] + u[0] * w[1] - u[1] * w[0]]
-            s = max(abs(v) for v in n)
-            if s:
-                dirs.add(tuple(v / s for v in n))
-    dirs = sorted(dirs)
-    for i, a in enumerate(dirs):
-        for b in dirs[:i]:
-            cr = (a[1] * b[2] - a[2] * b[1], a[2] * b[0] - a[0] * b[2], a[0] * b[1] - a[1] * b[0])
-            if any(cr):
-                cs = float(sum(x * y for x, y in zip(a, b))) / (float(sum(x * x for x in a)) * float(sum(y * y for y in b))) ** .5
-                if cs >= cos_thresh - 1e-9:
-                    return True
+def face_normal(f, pos):
+    """exact (unnormalised) normal of a face: sum of the fan cross products"""
+    P = [pos[v] for v in f]
+    n = [F(0)] * 3
+    for i in range(2, len(P)):
+        u, w = MG.sub(P[i - 1], P[0]), MG.sub(P[i], P[0])
+        n = [n[0] + u[1] * w[2] - u[2] * w[1], n[1] + u[2] * w[0] - u[0] * w[2], n[2] + u[0] * w[1] - u[1] * w[0]]
+    return n
+
+
+def group_boundary(member_cells):
+    """faces of a group of input cells after cancellation of a face against its reverse (what merge_elements keeps)"""
+    left = {}
+    for flat in member_cells:
+        for f in parse_flat(flat):
+            k, r = tuple(rot_min(f)), tuple(rot_min(f[::-1]))
+            if left.get(r, 0) > 0:
+                left[r] -= 1
+            else:
+                left[k] = left.get(k, 0) + 1
+    return [list(k) for k, c in left.items() for _ in range(c)]
+
+
+def admits_angle_merge(groups, pos, cos_thresh, tol=1e-6):
+    """groups: [(flat face data of the member cells, cancel shared faces?)].  NECESSARY condition for `remove_edges` to merge two faces that are not coplanar: in some output group two boundary
+    faces of the input that share an edge (a->b in one, b->a in the other) lie in non-parallel planes and the cosine of
+    their normals reaches the threshold.  Stated on the exact input geometry; |cos| because the code's normal of a
+    non-convex union of coplanar faces may come out with either sign; before the first such merge every face of the
+    pipeline is a union of coplanar input faces, so its normal is +- the exact one."""
+    for members, cancel in groups:
+        faces = group_boundary(members) if cancel else [f for flat in members for f in parse_flat(flat)]
+        normals = [face_normal(f, pos) for f in faces]
+        by_edge = {}
+        for k, f in enumerate(faces):
+            for i in range(len(f)):
+                by_edge.setdefault((f[i - 1], f[i]), []).append(k)
+        for (a, b), ks in by_edge.items():
+            for k in ks:
+                for j in by_edge.get((b, a), []):
+                    if j <= k:
+                        continue
+                    x, y = normals[k], normals[j]
+                    cr = (x[1] * y[2] - x[2] * y[1], x[2] * y[0] - x[0] * y[2], x[0] * y[1] - x[1] * y[0])
+                    if not any(cr):
+                        continue
+                    den = (float(sum(v * v for v in x)) * float(sum(v * v for v in y))) ** .5
+                    if den and abs(float(sum(u * v for u, v in zip(x, y)))) / den >= cos_thresh - tol:
+                        return True
     return False
 
 
@@ -159,6 +204,130 @@ def gen_case(rnd, i):
     params = {'elem_num': rnd.choice([1, 2, 3, 5, 8, n, 2 * n]), 'cos_thresh': COS[i % len(COS)] if i % 3 else rnd.choice(COS),
               'dist_thresh': round(rnd.choice(DIST) * emin, 6), 'knn': rnd.choice([1, 2, 3, 5])}
     return m, params
+
+
+def gen_history_case(rnd, i):
+    """compressions for the transfer histories: parameters under which a brick of >= 2 cells loses nodes"""
+    kind = 'hex' if i % 2 == 0 else 'tet'
+    m = MG.gen_geometric(rnd, kind=kind, max_cells=3, jitter=False, voids=False, unref=False, affine=(i % 3 != 2))
+    pos = dict(m['nodes'])
+    emin = min(sum(float(a - b) ** 2 for a, b in zip(pos[c[i]], pos[c[j]])) ** .5
+               for b in m['blocks'].values() for _, c in b for i in range(len(c)) for j in range(i))
+    params = {'elem_num': rnd.choice([1, 2, 3]), 'cos_thresh': rnd.choice([0.999, 0.99, 0.9]),
+              'dist_thresh': round(rnd.choice([0.0, 0.0, 0.0, 0.5, 1.01]) * emin, 6), 'knn': rnd.choice([1, 2, 3, 5])}
+    return m, params
+
+
+# ---------------------------------------------------------------- guard against a compression that does not end
+
+MEM_EXTRA = 2 << 30          # address space a dry run may add to the checking process
+TIME_CAP = [150.0]           # seconds; lowered after two dry runs that hit it
+
+
+_WARM = []
+
+
+def brick_mesh(kind, nx, ny, nz):
+    """unit brick, node ids 1..n stored ascending (the numbering of femio.generate_brick)"""
+    def idx(x, y, z):
+        return x + (nx + 1) * (y + (ny + 1) * z)
+    nodes = [(idx(x, y, z) + 1, (F(x), F(y), F(z))) for z in range(nz + 1) for y in range(ny + 1) for x in range(nx + 1)]
+    el = []
+    for z in range(nz):
+        for y in range(ny):
+            for x in range(nx):
+                c = [idx(x, y, z), idx(x + 1, y, z), idx(x + 1, y + 1, z), idx(x, y + 1, z),
+                     idx(x, y, z + 1), idx(x + 1, y, z + 1), idx(x + 1, y + 1, z + 1), idx(x, y + 1, z + 1)]
+                el += [[c[i] + 1 for i in t] for t in MG.KUHN] if kind == 'tet' else [[v + 1 for v in c]]
+    return {'kind': kind, 'order': 'asc', 'id_style': 'dense', 'nodes': nodes,
+            'blocks': {kind: [(e + 1, c) for e, c in enumerate(el)]}}
+
+
+def warm_up():
+    """compile the kernels of compress() in the checking process itself before the first fork (a child's compilation
+    is lost with the child)"""
+    if _WARM:
+        return
+    _WARM.append(1)
+    import femio.mesh_compressor as MC
+    poly = quiet(MG.to_femio(brick_mesh('hex', 2, 1, 1)).to_polyhedron)
+    quiet(MC.MeshCompressor(fem_data=poly).compress, elem_num=1, cos_thresh=0.999, dist_thresh=0.0)
+
+
+DRY_STATS = {'n': 0, 'max_s': 0.0, 'timeouts': 0}
+
+
+def dry_run(poly, params, confirmed=False):
+    """`compress` on a throw-away compressor in a forked child (the compiled kernels and the numba RNG state are
+    inherited, so the child does exactly what the parent is about to do) under an address-space cap and a wall-clock
+    cap.  None: it ends, normally or with an ordinary exception (the parent then runs it for real).  Otherwise a
+    description: the kernels are nopython loops, a loop that never ends cannot be interrupted from Python and one that
+    keeps appending gets the whole check killed by the kernel before any verdict is printed."""
+    import femio.mesh_compressor as MC
+    if not hasattr(os, 'fork'):
+        return None
+    warm_up()
+    import resource
+    cap = TIME_CAP[0]
+    r, w = os.pipe()
+    t0 = time.time()
+    pid = os.fork()
+    if pid == 0:
+        code = b'x'
+        try:
+            os.close(r)
+            rss0 = resource.getrusage(resource.RUSAGE_SELF).ru_maxrss
+            try:
+                vm = int(open('/proc/self/statm').read().split()[0]) * resource.getpagesize()
+                soft, hard = resource.getrlimit(resource.RLIMIT_AS)
+                lim = vm + MEM_EXTRA
+                if hard != resource.RLIM_INFINITY:
+                    lim = min(lim, hard)
+                resource.setrlimit(resource.RLIMIT_AS, (lim, hard))
+            except Exception:  # noqa
+                pass
+            try:
+                quiet(MC.MeshCompressor(fem_data=poly).compress, elem_num=params['elem_num'], cos_thresh=params['cos_thresh'],
+                      dist_thresh=params['dist_thresh'])
+                code = b'o'
+            except MemoryError:
+                code = b'm'
+            except BaseException:  # noqa   (an allocation failure may surface as another exception type)
+                grown = (resource.getrusage(resource.RUSAGE_SELF).ru_maxrss - rss0) * 1024
+                code = b'm' if grown > MEM_EXTRA // 2 else b'e'
+            os.write(w, code)
+        finally:
+            os._exit(0)
+    os.close(w)
+    try:
+        ready, _, _ = select.select([r], [], [], cap)
+        got = os.read(r, 1) if ready else None
+    finally:
+        os.close(r)
+    if got is None:
+        try:
+            os.kill(pid, signal.SIGKILL)
+        except OSError:
+            pass
+    _, status = os.waitpid(pid, 0)
+    dt = time.time() - t0
+    DRY_STATS['n'] += 1
+    if got in (b'o', b'e'):
+        DRY_STATS['max_s'] = max(DRY_STATS['max_s'], dt)
+    if got is None and not confirmed and not DRY_STATS['timeouts']:
+        # the first time a dry run hits the wall-clock cap it is repeated in a fresh child before anything is reported
+        return dry_run(poly, params, confirmed=True)
+    if got is None:
+        DRY_STATS['timeouts'] += 1
+        if DRY_STATS['timeouts'] >= 2:
+            TIME_CAP[0] = 30.0
+    if got in (b'o', b'e'):
+        return None
+    if got == b'm':
+        return f'needs more than {MEM_EXTRA >> 20} MiB of additional memory (MemoryError after {dt:.1f} s under that cap)'
+    if got is None:
+        return f'does not end within {cap:.0f} s'
+    return f'the process running it died (wait status {status}) after {dt:.1f} s under a cap of {MEM_EXTRA >> 20} MiB of additional memory'
 
 
 # ---------------------------------------------------------------- one compression
@@ -203,6 +372,36 @@ def read_faces(t):
     return t.lst(lambda: t.lst(t.nat))
 
 
+def classify_volume_change(mc, raw_cells, out_cells, pos0, pos1, conv1, cos_thresh):
+    """Why did the volume change although no vertex was merged?  -> (explanation, is it the known shape of failure?).
+    Known shape (findings/C20-volume-angle-merge.md): the output keeps the input coordinates of the nodes it keeps and
+    some output group has two adjacent boundary faces in different planes that the threshold lets `remove_edges` merge."""
+    K = len(pos1)
+    back = {}
+    for v, k in enumerate(conv1):
+        if int(k) >= 0:
+            back.setdefault(int(k), []).append(v)
+    if sorted(back) == list(range(K)) and all(len(v) == 1 for v in back.values()):
+        moved = [k for k in range(K) if pos1[k] != pos0[back[k][0]]]
+        if moved:
+            vol_back = sum(fan_vol6(parse_flat(c), [pos0[back[k][0]] for k in range(K)]) for c in out_cells)
+            k = moved[0]
+            return (f'coordinates-not-kept: {len(moved)} of the {K} output nodes do not have the coordinates of the input node they '
+                    f'stand for (output node {k} = input node at position {back[k][0]}: {[float(x) for x in pos1[k]]} vs '
+                    f'{[float(x) for x in pos0[back[k][0]]]}); with the input coordinates the same faces enclose {float(vol_back / 6):.12g}',
+                    False)
+    conv = [int(e) for e in mc.elem_conv]
+    if len(conv) == len(raw_cells) and all(-1 <= e < len(out_cells) for e in conv):
+        groups = [([raw_cells[p] for p in range(len(conv)) if conv[p] == g], True) for g in range(len(out_cells))]
+        groups.append(([raw_cells[p] for p in range(len(conv)) if conv[p] == -1], False))   # vanished cells: group unknown
+    else:
+        groups = [(raw_cells, False)]
+    if admits_angle_merge(groups, pos0, cos_thresh):
+        return 'angle-merge-admitted: the threshold admits merging two adjacent faces of an output group that are not coplanar', True
+    return ('no-angle-merge-possible: in no output group do two adjacent boundary faces in different planes reach cos_thresh, '
+            'so only coplanar faces can have been merged'), False
+
+
 def compress_case(ctx, m, params, label='generated'):
     import femio.mesh_compressor as MC
     fd = MG.to_femio(m)
@@ -213,6 +412,14 @@ def compress_case(ctx, m, params, label='generated'):
     vol0 = sum(fan_vol6(parse_flat(c), pos0) for c in raw_cells)
     mc = MC.MeshCompressor(fem_data=poly)
     key = ('compress', MG.enc_mesh(m), tuple(sorted(params.items())))
+    runaway = dry_run(poly, params)
+    if runaway:
+        # a valid brick must compress; the same input takes well under a second and a few MiB on the tree as delivered
+        ctx.fail('compress:runaway', f'compress({params}) on a mesh of {len(raw_cells)} cells / {len(pos0)} nodes ({m["kind"]}, node ids '
+                 f'{m["order"]}) {runaway}: no compressed mesh is produced', case, None)
+        ctx.count('compress:runaway')
+        ctx.case(key, nontrivial=True)
+        return None
     with Hooks() as hk:
         try:
             ok = quiet(mc.compress, elem_num=params['elem_num'], cos_thresh=params['cos_thresh'], dist_thresh=params['dist_thresh'])
@@ -279,13 +486,12 @@ def compress_case(ctx, m, params, label='generated'):
                            'vertices-merged(not-compared)' if merged_vertices else 'no-vertex-merged'))
     if evaluable and not merged_vertices:
         if vol1 != vol0:
-            planar = not admits_angle_merge(raw_cells, pos0, params['cos_thresh'])
-            ctx.fail('volume:changed-without-vertex-merge' + ('' if planar else ':faces-merged-across-an-angle'),
+            why, known_shape = classify_volume_change(mc, raw_cells, out_cells, pos0, pos1, conv1, params['cos_thresh'])
+            ctx.fail('volume:changed-without-vertex-merge' + (':faces-merged-across-an-angle' if known_shape else ''),
                      f'no vertices were merged (dist_thresh={params["dist_thresh"]}) but the total volume is {float(vol1 / 6):.12g}, '
-                     f'original {float(vol0 / 6):.12g} (ratio {float(vol1 / vol0):.6f}); cos_thresh={params["cos_thresh"]}; '
-                     + ('no two non-parallel face normals of the input reach cos_thresh' if planar else
-                        'the threshold admits merging faces that are not coplanar'), case,
-                     {'vol6_out': str(vol1), 'vol6_in': str(vol0)})
+                     f'original {float(vol0 / 6):.12g} (ratio {float(vol1 / vol0):.6f}); cos_thresh={params["cos_thresh"]}; node ids '
+                     f'{m["order"]}; {why}', case, {'vol6_out': str(vol1), 'vol6_in': str(vol0)})
+            ctx.count('volume-change:' + why.split(':')[0])
         else:
             ctx.count('volume:exactly-conserved')
     ctx.case(key, sample={'kind': 'compress', 'mesh': MG.describe(m), **params, 'cells_in': len(raw_cells), 'cells_out': len(out_cells),
@@ -358,8 +564,10 @@ def mat_rows(mat):
     return [sorted(int(j) for j in mat.indices[mat.indptr[i]:mat.indptr[i + 1]]) for i in range(mat.shape[0])]
 
 
-def transfer_case(ctx, mc, poly, case, knn, f_width):
+def transfer_case(ctx, mc, poly, case, knn, f_width, step=None):
     rnd = ctx.rng
+    hist = {} if step is None else {'step': step}
+    seen = {}
     out = mc.output_fem_data
     for level in ('nodal', 'elemental'):
         try:
@@ -393,29 +601,31 @@ def transfer_case(ctx, mc, poly, case, knn, f_width):
                     if nm in h:
                         h.pop(nm)
                 quiet(holder_in.update_data, ids_in, {n1: arr}, allow_overwrite=True)
-                tc = {**case, 'knn': knn, 'level': level, 'direction': direction, 'transfer_kind': kind, 'width': f_width}
+                tc = {**case, 'knn': knn, 'level': level, 'direction': direction, 'transfer_kind': kind, 'width': f_width, **hist}
                 sig = f'transfer:{kind}'
+                ctxt = (f'{direction}_{level}_data(kind={kind!r}, knn={knn})' + ('' if step is None else
+                        f', call group #{step + 1} of the knn sequence {case.get("knn_seq")} on ONE MeshCompressor object') + ': ')
                 try:
                     quiet(fn, name_1=n1, name_2=n2, kind=kind, knn=knn)
                     y = np.asarray(holder_out[n2].data, dtype=np.float64)
                 except Exception as e:  # noqa
-                    ctx.fail(sig + ':raises', f'{direction}_{level}_data(kind={kind!r}, knn={knn}) on data of shape {arr.shape} raised '
+                    ctx.fail(sig + ':raises', ('' if step is None else ctxt) + f'{direction}_{level}_data(kind={kind!r}, knn={knn}) on data of shape {arr.shape} raised '
                              f'{type(e).__name__}: {str(e)[:120]}', tc, None)
-                    ctx.case(('transfer', case['params'].__repr__(), level, direction, kind, knn, f_width), nontrivial=True)
+                    ctx.case(('transfer', case['params'].__repr__(), level, direction, kind, knn, f_width, step), nontrivial=True)
                     continue
                 y2 = y.reshape(y.shape[0], -1)
                 scale = max(1.0, float(np.abs(arr).sum()))
                 # ---- oracle: the documented behaviour
                 if y2.shape != (n_out, f_width):
-                    ctx.fail(sig + ':shape', f'{direction}_{level}_data(kind={kind!r}) maps data of shape {(n_in, f_width)} to shape '
+                    ctx.fail(sig + ':shape', ('' if step is None else ctxt) + f'{direction}_{level}_data(kind={kind!r}) maps data of shape {(n_in, f_width)} to shape '
                              f'{y.shape}, expected {(n_out, f_width)}; grand total {float(np.nansum(y)):.6g} vs {float(arr.sum()):.6g}', tc,
                              {'shape': list(y.shape)})
                 elif kind == 'mean':
                     if not np.allclose(y2, arr[0][None, :], rtol=0, atol=1e-9 * scale, equal_nan=False):
-                        ctx.fail(sig + ':constant-not-kept', f'constant field {arr[0].tolist()} becomes {y2[:3].tolist()}...', tc, None)
+                        ctx.fail(sig + ':constant-not-kept', ctxt + f'constant field {arr[0].tolist()} becomes {y2[:3].tolist()}...', tc, None)
                 else:
                     if not np.allclose(y2.sum(axis=0), arr.sum(axis=0), rtol=0, atol=1e-9 * scale):
-                        ctx.fail(sig + ':total-not-conserved', f'totals {arr.sum(axis=0).tolist()} become {y2.sum(axis=0).tolist()}', tc, None)
+                        ctx.fail(sig + ':total-not-conserved', ctxt + f'totals {arr.sum(axis=0).tolist()} become {y2.sum(axis=0).tolist()}', tc, None)
                 # ---- correspondence with the model applied to the real matrix
                 if ctx.driver is not None:
                     xs = ' '.join(C.enc_rat(v) for r in x for v in r)
@@ -429,10 +639,72 @@ def transfer_case(ctx, mc, poly, case, knn, f_width):
                         t = ask(ctx, f'c20.transfer sumbroadcast {n_in} {C.enc_list(rws, C.enc_list)} 1 {xs}')
                         mod = np.array([float(t.rat()) for _ in range(n_out * n_in)]).reshape(n_out, n_in)
                         ctx.count('cfg:sum-broadcast(F12 unrepaired)' if np.allclose(y2, mod, rtol=0, atol=1e-9 * scale) else 'cfg:sum-unknown')
-                ctx.case(('transfer', MG.enc_mesh(MG.from_json(case['mesh'])), repr(sorted(case['params'].items())), level, direction, kind, knn, f_width),
-                         sample={'kind': 'transfer', 'level': level, 'direction': direction, 'transfer_kind': kind, 'knn': knn,
+                ctx.case(('transfer', MG.enc_mesh(MG.from_json(case['mesh'])), repr(sorted(case['params'].items())), level, direction, kind, knn, f_width,
+                          step, tuple(case.get('knn_seq', ()))),
+                         sample={'kind': case.get('kind') if step is not None else 'transfer', **hist, 'level': level, 'direction': direction, 'transfer_kind': kind, 'knn': knn,
                                  'matrix_shape': [M, N], 'width': f_width}, nontrivial=True)
                 ctx.count(f'transfer:{level}:{direction}:{kind}')
+        seen[level] = rows
+    return seen
+
+
+def clear_matrix_caches():
+    import femio.mesh_compressor as MC
+    for name in ('calculate_conversion_matrix_nodal', 'calculate_conversion_matrix_elemental'):
+        f = getattr(MC.MeshCompressor, name, None)
+        if hasattr(f, 'cache_clear'):
+            f.cache_clear()
+
+
+def gen_knn_seq(rnd, i):
+    """sequences of knn used on ONE compressor: returns to an earlier value after a different one (A, B, A), immediate
+    repetitions, and free sequences"""
+    ks = [1, 2, 3, 5]
+    a, b = rnd.sample(ks, 2)
+    if i % 4 == 0:
+        return [a, b, a]
+    if i % 4 == 1:
+        return [a, a, b, a, b]
+    if i % 4 == 2:
+        c = rnd.choice([k for k in ks if k not in (a, b)])
+        return [a, b, c, a, c, b]
+    return [rnd.choice(ks) for _ in range(rnd.randint(3, 6))]
+
+
+def transfer_history(ctx, mc, poly, case, knn_seq, f_width):
+    """the same MeshCompressor object used for a sequence of transfers (the conversion matrices are lru_cached per
+    (object, knn)): after every call the laws are checked and the result compared with the model on the real matrix"""
+    clear_matrix_caches()
+    hcase = {**case, 'kind': 'transfer_history', 'knn_seq': list(knn_seq), 'width': f_width}
+    mats = {}
+    for j, knn in enumerate(knn_seq):
+        seen = transfer_case(ctx, mc, poly, hcase, knn, f_width, step=j)
+        for level, rows in seen.items():
+            if (level, knn) in mats and mats[(level, knn)] != rows:
+                # the matrix of a given knn is a function of the compression, not of the history
+                ctx.disagree(f'conversion matrix ({level}) differs between two calls with the same knn on one compressor',
+                             {**hcase, 'step': j, 'knn': knn, 'level': level}, rows[:6], mats[(level, knn)][:6])
+            mats[(level, knn)] = rows
+    returns = any(knn_seq[j] in knn_seq[:j - 1] and knn_seq[j] != knn_seq[j - 1] for j in range(2, len(knn_seq)))
+    differ = {level: len({repr(r) for (lv, k), r in mats.items() if lv == level}) > 1 for level in ('nodal', 'elemental')}
+    ctx.count('history:' + ('returns-to-an-earlier-knn' if returns else 'no-return') + ':nodal-matrices-'
+              + ('differ' if differ['nodal'] else 'all-equal') + ':elemental-' + ('differ' if differ['elemental'] else 'all-equal'))
+    ctx.count('history:length-' + str(len(knn_seq)))
+    ctx.case(('history', MG.enc_mesh(MG.from_json(case['mesh'])), repr(sorted(case['params'].items())), tuple(knn_seq), f_width),
+             sample={'kind': 'transfer_history', 'knn_seq': list(knn_seq), 'width': f_width, 'mesh': MG.describe(MG.from_json(case['mesh'])),
+                     'returns_to_earlier_knn': returns, 'matrices_differ': differ},
+             nontrivial=returns and (differ['nodal'] or differ['elemental']))
+    return returns and differ['nodal']
+
+
+def reorder_nodes(rnd, m, order):
+    """the same mesh (ids, coordinates, connectivity by id) with its node table stored in another order class"""
+    ids = [i for i, _ in m['nodes']]
+    pos = dict(m['nodes'])
+    keys, order = MG.order_ids(rnd, ids, {i: i for i in ids}, order)
+    out = dict(m)
+    out.update(nodes=[(i, pos[i]) for i in keys], order=order)
+    return out
 
 
 # ---------------------------------------------------------------- entry points
@@ -467,6 +739,9 @@ def run(ctx):
     n_comp = ctx.n(80, 5000)
     n_transfer = ctx.n(14, 400)
     n_merge = ctx.n(14, 400)
+    n_hist = ctx.n(8, 300)
+    n_sweep = ctx.n(2, 60)
+    warm_up()
     for name, obj in C.corpus_cases(PROP):
         r = replay(ctx, {'input': obj.get('input', obj)})
         ctx.count('corpus:' + ('fails' if r.get('fails') else 'passes'))
@@ -481,10 +756,37 @@ def run(ctx):
             mc, poly, case = r
             transfer_case(ctx, mc, poly, case, params['knn'], 1 if done_t % 3 else ctx.rng.choice([2, 3]))
             done_t += 1
+    # stream 'history': ONE compressor object, a sequence of transfers with varying knn (A, B, A; repetitions; free)
+    done_h = 0
+    for i in range(4 * n_hist):
+        if done_h >= n_hist:
+            break
+        m, params = gen_history_case(ctx.rng, i)
+        r = compress_case(ctx, m, params, 'history')
+        if r is None:
+            continue
+        mc, poly, case = r
+        if len(mc.output_fem_data.nodes.data) >= len(poly.nodes.data) and i % 4:
+            ctx.count('history:compression-kept-every-node(skipped)')
+            continue
+        transfer_history(ctx, mc, poly, case, gen_knn_seq(ctx.rng, done_h), 1 if done_h % 3 else ctx.rng.choice([2, 3]))
+        done_h += 1
+    # stream 'order-sweep': one geometry and one id set under every storage order class of the node table, no vertex
+    # merging, thresholds that admit (next to) no angle merge: the volume clause on all of them
+    for j in range(n_sweep):
+        base = MG.gen_geometric(ctx.rng, kind='tet' if j % 2 == 0 else 'hex', max_cells=3, jitter=False, voids=False, unref=False,
+                                order='asc', affine=True)
+        n = sum(len(b) for b in base['blocks'].values())
+        params = {'elem_num': ctx.rng.choice([1, 2, 3, n]), 'cos_thresh': ctx.rng.choice([1 - 1e-9, 0.999]), 'dist_thresh': 0.0, 'knn': 1}
+        for order in ('asc', 'desc', 'shuf', 'midshuf', 'swap2'):
+            compress_case(ctx, reorder_nodes(ctx.rng, base, order), params, 'order-sweep')
+            ctx.count('order-sweep:' + order)
     for i in range(n_merge):
         m, _ = gen_case(ctx.rng, i)
         n = sum(len(b) for b in m['blocks'].values())
         merge_case(ctx, m, ctx.rng.choice([2, 3, 6, max(2, n // 2), n]))
+    ctx.extra['dry_runs'] = {'n': DRY_STATS['n'], 'slowest_completed_s': round(DRY_STATS['max_s'], 2), 'hit_time_cap': DRY_STATS['timeouts'],
+                             'caps': f'{MEM_EXTRA >> 20} MiB additional address space, {TIME_CAP[0]:.0f} s'}
     # which configuration of the 'sum' transfer does the tree implement (Cfg pattern, DESIGN section 5 F12)?
     doc, bro = ctx.dist.get('cfg:sum-as-documented', 0), ctx.dist.get('cfg:sum-broadcast(F12 unrepaired)', 0)
     ctx.extra['cfg_detected'] = ('sum transfer as documented (theorems C20_sum_total / _back apply)' if doc and not bro else
@@ -500,7 +802,10 @@ def replay(ctx, obj):
         merge_case(ctx, m, case['K'])
     else:
         r = compress_case(ctx, m, case['params'], 'replay')
-        if r is not None and 'knn' in case and 'level' in case:
+        if r is not None and 'knn_seq' in case:
+            mc, poly, c2 = r
+            transfer_history(ctx, mc, poly, c2, case['knn_seq'], case.get('width', 1))
+        elif r is not None and 'knn' in case and 'level' in case:
             mc, poly, c2 = r
             transfer_case(ctx, mc, poly, c2, case['knn'], case.get('width', 1))
     new = ctx.failures[before:]
